@@ -17,23 +17,27 @@ def _integer(digits: str) -> int:
         raise ParseError(str(e)) from e
 
 
+def _combine(operation: Any, *operands: Any) -> Any:
+    try:
+        return operation(*operands)
+    except OverflowError as e:  # prefixes of different bases (kB, km*KiB) and a huge power
+        raise ParseError(str(e)) from e
+
+
 class QuantityTransformer(_parser.Transformer[Any, "Quantity"]):
     inline = _parser.v_args(inline=True)
 
     @inline
     def unit(self, numerator: Unit, denominator: Optional[Unit] = None) -> Unit:
-        return numerator / (denominator or One)
+        return _combine(operator.truediv, numerator, denominator or One)
 
     @inline
     def unit_sequence(self, *terms: Unit) -> Unit:
-        return reduce(operator.mul, terms)
+        return _combine(reduce, operator.mul, terms)
 
     @inline
     def term(self, symbol: str, exponent: int = 1) -> Unit:
-        try:
-            return Unit.resolve_symbol(symbol) ** exponent
-        except OverflowError as e:  # a float prefix exponent (e.g. kB) times a huge power
-            raise ParseError(str(e)) from e
+        return _combine(operator.pow, Unit.resolve_symbol(symbol), exponent)
 
     @inline
     def carat_exponent(self, exponent: str) -> int:
